@@ -57,9 +57,9 @@ POOLS = {
     "tag_version": ["2.0.0", "v3.1.4-rc.2", "1.0a2"], "distance": [0, 1, 7], "dirty": [True], "no_dirty": [True], "clean": [True],
     "bumped_branch": ["hotfix/zeta", "main", ""], "bumped_commit_hash": ["deadbeefcafe", "g1234567", ""], "bumped_timestamp": [0, 1710511845],
     "major": [0, 9], "minor": [0, 8], "patch": [0, 7], "epoch": [0, 2], "post": [0, 6], "dev": [0, 5], "pre_release_label": ["alpha", "beta", "rc"], "pre_release_num": [0, 4],
-    "custom": ["{\"a\":\"y\"}", "{}"], "core": ["0=5", "~1=2", "-1=2"], "extra_core": ["2=9"], "build": ["2=zzz", "3=1"],
+    "custom": ["{\"a\":\"y\"}", "{}"], "core": ["0=5", "~1=2", "-1=2", "0={{ major + 4 }}", "1= 7"], "extra_core": ["2=9", "2={{ post + 1 }}"], "build": ["2=zzz", "3=1", "2=a b", "2={{ bumped_branch }} x"],
     "bump_major": [0, 1, 3], "bump_minor": [0, 1, 3], "bump_patch": [0, 1, 3], "bump_post": [0, 2], "bump_dev": [0, 2], "bump_pre_release_num": [0, 2], "bump_epoch": [0, 1],
-    "bump_pre_release_label": ["beta", "rc"], "bump_core": ["0=1", "1"], "bump_extra_core": ["2=1"], "bump_build": ["3=2"], "bump_context": [True], "no_bump_context": [True],
+    "bump_pre_release_label": ["beta", "rc"], "bump_core": ["0=1", "1", "0={{ 1 + 1 }}"], "bump_extra_core": ["2=1", "2={{ 1 + 1 }}"], "bump_build": ["3=2", "3={{ 1 + 1 }}"], "bump_context": [True], "no_bump_context": [True],
     "verbose": [True], "post_mode": ["tag", "commit"], "branch_rules": [RULES], "hash_branch_len": [1, 5, 9], "format": ["semver", "pep440"],
 }
 VERSION_ONLY_LABELS = ["none"]
